@@ -630,7 +630,7 @@ pub fn eval_cli(c: &(Raw14, u16)) -> CaseOutcome {
     let so = out.out_str();
     // the marker is the first thing a run writes; diagnostics never start with it (they may echo a source line that contains one)
     let executed = so.starts_with('!') || so.contains("Output of line") || so.contains("AX : ");
-    let diagnosed = so.contains("Syntax Error") || so.contains("used but not defined") || so.contains("necessary label 'start'");
+    let diagnosed = looks_like_diagnostic(&so);
     if executed {
         return CaseOutcome::Fail { key: format!("c14|cli|executed|{}", m.class), what: format!("{} ({}): program output present, the invalid program was run (stdout starts {:?})", m.class, m.what, so.chars().take(80).collect::<String>()), replay };
     }
@@ -692,7 +692,7 @@ pub fn run(ctx: &Ctx) {
         let so = out.out_str();
         if !out.clean() {
             ctx.fail(Failure { key: "c14|cli|abnormal-exit|missing-start".into(), what: format!("source without instructions {:?}: status {:?} {}", src, out.status, out.err_str().lines().next().unwrap_or("")), replay });
-        } else if !(so.contains("necessary label 'start'") || so.contains("Syntax Error")) {
+        } else if !looks_like_diagnostic(&so) {
             ctx.fail(Failure { key: "c14|cli|no-diagnostic|missing-start|no-instructions".into(), what: format!("a source without any instruction ({:?}) lacks a code label 'start' but no diagnostic was produced (stdout {:?})", src, so.chars().take(100).collect::<String>()), replay });
         } else {
             ctx.add_nontrivial(1);
